@@ -180,13 +180,15 @@ def _r3(model, res, m):
     site = '%s:column converters' % m.name
     consts = guards.module_consts(m, model)
     # the alphabet constant
-    alpha_names = [nm for nm, node in m.constants.items() if isinstance(node, ast.Constant) and isinstance(node.value, str) and
+    pool = dict(m.constants)
+    pool.update(m.class_constants())        # a class used as a namespace for the helpers holds its constants as Cls.NAME
+    alpha_names = [nm for nm, node in pool.items() if isinstance(node, ast.Constant) and isinstance(node.value, str) and
                    len(node.value) >= 20 and node.value.isalpha()]
-    ok = len(alpha_names) == 1 and m.constants[alpha_names[0]].value == 'ABCDEFGHIJKLMNOPQRSTUVWXYZ'
+    ok = len(alpha_names) == 1 and pool[alpha_names[0]].value == 'ABCDEFGHIJKLMNOPQRSTUVWXYZ'
     res.ob('R3', site, 'column alphabet constant is A..Z in order', ok, alpha_names)
     if not ok:
         res.violation('R3', '%s:alphabet' % m.name, m.relpath, 'the column alphabet constant must be the 26 letters A..Z in order (found %s)'
-                      % [(nm, m.constants[nm].value) for nm in alpha_names])
+                      % [(nm, pool[nm].value) for nm in alpha_names])
         return
     aname = alpha_names[0]
     for fname in ('column_label_to_index', 'column_index_to_label'):
@@ -268,8 +270,12 @@ def _r3(model, res, m):
                           '%s must use the alphabet length 26 as its only radix; found %s' % (fname, bad or 'no radix arithmetic'), func=fname)
         # letter <-> digit mapping
         if fname == 'column_label_to_index':
+            def is_alphabet(e):
+                # the constant by its name, as Cls.NAME, or as cls.NAME / self.NAME inside the namespace class
+                t = src(e)
+                return t == aname or ('.' in aname and t.split('.')[-1] == aname.split('.')[-1] and t.split('.')[0] in ('cls', 'self', aname.split('.')[0]))
             finds = [n for n in body_nodes if isinstance(n, ast.Call) and isinstance(n.func, ast.Attribute) and n.func.attr in ('find', 'index')
-                     and isinstance(n.func.value, ast.Name) and n.func.value.id == aname]
+                     and isinstance(n.func.value, (ast.Name, ast.Attribute)) and is_alphabet(n.func.value)]
             ords = [n for n in body_nodes if isinstance(n, ast.Call) and sa.call_name(n) == 'ord']
             okm = bool(finds) or bool(ords)
             res.ob('R3', '%s:%s' % (m.name, fname), 'letters are mapped through the alphabet constant', okm)
@@ -321,7 +327,8 @@ def _r3(model, res, m):
                 if not okc:
                     res.violation('R3', '%s:%s:chr-offset' % (m.name, fname), m.where(n),
                                   'digits are turned into letters with %s; the offset must be 65 or 97' % src(n), func=fname)
-            subs = [n for n in body_nodes if isinstance(n, ast.Subscript) and isinstance(n.value, ast.Name) and n.value.id == aname]
+            subs = [n for n in body_nodes if isinstance(n, ast.Subscript) and isinstance(n.value, (ast.Name, ast.Attribute)) and
+                    (src(n.value) == aname or src(n.value).split('.')[-1] == aname.split('.')[-1])]
             res.ob('R3', '%s:%s' % (m.name, fname), 'letters produced by chr() or the alphabet constant', bool(chrs) or bool(subs))
 
 
